@@ -31,6 +31,8 @@ pub enum Alias {
     /// `self.FIELD.last_mut().unwrap()`: a copy of the last element of `self.FIELD`, written back after
     /// every assignment through it
     LastOf(String),
+    /// `let x = PLACE.get_mut()`: `*x` is the place `PLACE` (a field chain)
+    Place(Vec<String>),
 }
 
 #[derive(Default)]
@@ -269,6 +271,22 @@ impl<'a> Tr<'a> {
         self.type_of(e).as_deref() == Some("Rs.S.Inner") && field_chain(e).map(|c| c.first().map(|s| s == "self").unwrap_or(false)).unwrap_or(false)
     }
 
+    /// field chain of a place expression, with `Place` aliases substituted
+    fn s_chain(&self, e: &Expr) -> Option<Vec<String>> {
+        let mut c = field_chain(e)?;
+        let mut guard = 0;
+        while let Some(Alias::Place(p)) = self.s.alias.get(&c[0]) {
+            let mut n = p.clone();
+            n.extend(c[1..].iter().cloned());
+            c = n;
+            guard += 1;
+            if guard > 8 {
+                return None;
+            }
+        }
+        Some(c)
+    }
+
     fn s_alias_of(&self, e: &Expr) -> Option<Alias> {
         match e {
             Expr::Path(_) => path_ident(e).and_then(|v| self.s.alias.get(&v).cloned()),
@@ -279,7 +297,7 @@ impl<'a> Tr<'a> {
 
     /// Assign `v` to the place `lhs` (a field chain over `self`, over an alias, or a local).
     pub fn s_assign(&mut self, lhs: &Expr, v: String) -> R<()> {
-        let chain = field_chain(lhs).ok_or("assignment target")?;
+        let chain = self.s_chain(lhs).ok_or("assignment target")?;
         let root = chain[0].clone();
         if chain.len() == 1 {
             self.emit(format!("{root} := {v}"));
@@ -317,6 +335,13 @@ impl<'a> Tr<'a> {
 
     pub fn s_type_of(&self, e: &Expr) -> Option<String> {
         match e {
+            Expr::Path(_) => {
+                let v = path_ident(e)?;
+                if let Some(Alias::Place(_)) = self.s.alias.get(&v) {
+                    return self.type_of_plain(e);
+                }
+                None
+            }
             Expr::MethodCall(m) => {
                 let name = m.method.to_string();
                 if self.s_alias_of(&m.receiver) == Some(Alias::Encoder) && name == "write" {
@@ -329,6 +354,18 @@ impl<'a> Tr<'a> {
                         "switch_to" => return Some("(Except ZErr Unit)".into()),
                         _ => {}
                     }
+                }
+                if self.s_alias_of(&m.receiver) == Some(Alias::Plain) {
+                    match name.as_str() {
+                        "stream_position" | "seek" => return Some("(Except ZErr UInt64)".into()),
+                        _ => return Some("(Except ZErr Unit)".into()),
+                    }
+                }
+                if name == "finish" && self.type_of(&m.receiver).as_deref() == Some("Model.EncState") {
+                    return Some("(Except ZErr Unit)".into());
+                }
+                if name == "load" && m.args.is_empty() && self.type_of(&m.receiver).as_deref() == Some("UInt64") {
+                    return Some("UInt64".into());
                 }
                 match name.as_str() {
                     "finalize" => {
@@ -393,7 +430,7 @@ impl<'a> Tr<'a> {
 
     /// type of a variable / field chain (no recursion into `s_type_of`)
     fn type_of_plain(&self, e: &Expr) -> Option<String> {
-        let chain = field_chain(e)?;
+        let chain = self.s_chain(e)?;
         let mut t = self.vars.get(&chain[0])?.clone();
         for f in &chain[1..] {
             let st = t.strip_prefix("Gen.")?.to_string();
@@ -452,11 +489,43 @@ impl<'a> Tr<'a> {
                 if is_path(&c.func, &["Hasher", "new"]) && c.args.is_empty() {
                     return Ok(Some("Rs.Hasher.new".into()));
                 }
+                // GenericZipWriter::Storer(MaybeEncrypted::Unencrypted(sink) | MaybeEncrypted::Encrypted(zc) | m)
+                if is_path(&c.func, &["GenericZipWriter", "Storer"]) && c.args.len() == 1 {
+                    if let Expr::Call(ic) = &c.args[0] {
+                        if is_path(&ic.func, &["MaybeEncrypted", "Unencrypted"]) && ic.args.len() == 1 {
+                            // the bare sink is the device of the monad: evaluate the argument for its effect
+                            let t = self.type_of(&ic.args[0]);
+                            if t.as_deref() != Some("Unit") {
+                                return Err("MaybeEncrypted::Unencrypted of something that is not the bare sink".into());
+                            }
+                            let _ = self.expr(&ic.args[0])?;
+                            return Ok(Some("(Model.Inner.storer none)".into()));
+                        }
+                        if is_path(&ic.func, &["MaybeEncrypted", "Encrypted"]) && ic.args.len() == 1 {
+                            if self.type_of(&ic.args[0]).as_deref() != Some("Model.EncState") {
+                                return Err("MaybeEncrypted::Encrypted of something that is not a ZipCryptoWriter".into());
+                            }
+                            let v = self.expr(&ic.args[0])?;
+                            return Ok(Some(format!("(Model.Inner.storer (some {v}))")));
+                        }
+                    }
+                    if self.type_of(&c.args[0]).as_deref() == Some("(Option Model.EncState)") {
+                        let v = self.expr(&c.args[0])?;
+                        return Ok(Some(format!("(Model.Inner.storer {v})")));
+                    }
+                    return Err("GenericZipWriter::Storer of an unsupported expression".into());
+                }
                 Ok(None)
             }
             Expr::Path(_) => {
                 if is_path(e, &["GenericZipWriter", "Closed"]) {
                     return Ok(Some("Rs.S.closed".into()));
+                }
+                if let Some(v) = path_ident(e) {
+                    if let Some(Alias::Place(_)) = self.s.alias.get(&v) {
+                        let c = self.s_chain(e).ok_or("alias")?;
+                        return Ok(Some(c.join(".")));
+                    }
                 }
                 Ok(None)
             }
@@ -538,6 +607,11 @@ impl<'a> Tr<'a> {
                 let a = self.expr(&m.args[0])?;
                 self.s_assign(&m.receiver, format!("Rs.Hasher.update {h} {a}"))?;
                 return Ok(Some("()".into()));
+            }
+            // atomic_cell.load()
+            "load" if m.args.is_empty() && self.type_of(&m.receiver).as_deref() == Some("UInt64") => {
+                let v = self.expr(&m.receiver)?;
+                return Ok(Some(v));
             }
             // `x.into()` on a `String` / an error value
             "into" if m.args.is_empty() => {
@@ -637,6 +711,129 @@ impl<'a> Tr<'a> {
                 }
                 return self.s_call_method(&m.receiver, &st, &name, &m.args);
             }
+            // operations on the bare sink (`let writer = self.inner.get_plain()`)
+            if self.s_alias_of(&m.receiver) == Some(Alias::Plain) {
+                let op: String = if name == "stream_position" && m.args.is_empty() {
+                    "Rs.S.position".into()
+                } else if name == "seek" && m.args.len() == 1 {
+                    let sf = self.seek_from(&m.args[0])?;
+                    format!("(Rs.R.seek {sf})")
+                } else if name == "write_all" && m.args.len() == 1 {
+                    if self.type_of(&m.args[0]).as_deref() != Some("Bytes") {
+                        return Err("write_all of an expression of unknown type".into());
+                    }
+                    let a = self.expr(&m.args[0])?;
+                    format!("(Model.M.writeAll {a})")
+                } else if let Some(t) = write_int_ty(&name) {
+                    if name == "write_u8" || !little_endian(m) || m.args.len() != 1 {
+                        return Err(format!("{name} without ::<LittleEndian>"));
+                    }
+                    self.expect = Some(t.into());
+                    let a = self.expr(&m.args[0])?;
+                    let le = match t { "UInt16" => "le16", "UInt32" => "le32", _ => "le64" };
+                    format!("(Model.M.writeAll (Rs.{le} {a}))")
+                } else {
+                    return Err(format!("sink.{name}()"));
+                };
+                let t = self.fresh();
+                self.emit(format!("let {t} ← Rs.S.io {op} self"));
+                return Ok(t);
+            }
+            // self.inner.switch_to(method, level)?
+            if name == "switch_to" && m.args.len() == 2 && self.s_is_inner(&m.receiver) {
+                let inner = self.expr(&m.receiver)?;
+                let a = self.expr(&m.args[0])?;
+                self.expect = Some("(Option Int32)".into());
+                let b = self.expr(&m.args[1])?;
+                let t1 = self.fresh();
+                let t2 = self.fresh();
+                self.emit(format!("let ({t1}, {t2}) ← Rs.S.call (Rs.S.switch_to ext {inner} {a} {b})"));
+                self.s_assign(&m.receiver, t2)?;
+                let t3 = self.fresh();
+                self.emit(format!("let {t3} ← Rs.S.ofResult {t1} self"));
+                return Ok(t3);
+            }
+            // zip_crypto_writer.finish(crc32)?  : the bare sink
+            if name == "finish" && m.args.len() == 1 && self.type_of(&m.receiver).as_deref() == Some("Model.EncState") {
+                let w = self.expr(&m.receiver)?;
+                self.expect = Some("UInt32".into());
+                let c = self.expr(&m.args[0])?;
+                let t = self.fresh();
+                self.emit(format!("let {t} ← Rs.S.io (Rs.S.zc_finish ext {w} {c}) self"));
+                return Ok(t);
+            }
+            // opt.ok_or(e)? / opt.ok_or_else(|| e)?
+            if (name == "ok_or" || name == "ok_or_else") && m.args.len() == 1 {
+                let ety = self.type_of(&m.receiver);
+                if ety.as_deref().map(|t| t.starts_with("(Option ")).unwrap_or(false) {
+                    let o = self.expr(&m.receiver)?;
+                    let earg: &Expr = match &m.args[0] {
+                        Expr::Closure(cl) if cl.inputs.is_empty() => &cl.body,
+                        other if name == "ok_or" => other,
+                        _ => return Err("ok_or_else with a closure that takes arguments".into()),
+                    };
+                    let mark = self.lines.len();
+                    let e = self.expr(earg)?;
+                    if self.lines.len() != mark {
+                        return Err("error value with effects".into());
+                    }
+                    let t = self.fresh();
+                    self.emit(format!("let {t} ← Rs.S.okOr {o} {e} self"));
+                    return Ok(t);
+                }
+            }
+            // a translated W-mode method of a record, called with the bare sink: `footer.write(writer)?`
+            if let Some((ty, info)) = self.method_owner(&m.receiver, &name) {
+                if info.fi.mode == Mode::W {
+                    if self.failed.contains(&format!("{ty}::{name}")) {
+                        return Err(format!("calls the untranslated {ty}::{name}"));
+                    }
+                    let recv = self.expr(&m.receiver)?;
+                    let mut args = vec![];
+                    for (k, a) in m.args.iter().enumerate() {
+                        if Some(k) == info.fi.writer_idx {
+                            if self.s_alias_of(a) != Some(Alias::Plain) {
+                                return Err(format!("writer argument of {ty}::{name} is not the bare sink"));
+                            }
+                            continue;
+                        }
+                        args.push(self.expr(a)?);
+                    }
+                    let a = if args.is_empty() { String::new() } else { format!(" {}", args.join(" ")) };
+                    let t = self.fresh();
+                    self.emit(format!("let {t} ← Rs.S.runW (Gen.{ty}.{name} (ω := Rs.Act) {recv}{a}) self"));
+                    return Ok(t);
+                }
+            }
+        }
+        // a translated W-mode function, called with the bare sink (or without a sink)
+        if let Expr::Call(c) = inner {
+            if let Expr::Path(p) = &*c.func {
+                if p.path.segments.len() == 1 {
+                    let name = path_last(&p.path);
+                    if let Some(fi) = self.reg.fns.get(&name).cloned() {
+                        if fi.mode == Mode::W {
+                            if self.failed.contains(&name) {
+                                return Err(format!("calls the untranslated {name}"));
+                            }
+                            let mut args = vec![];
+                            for (k, a) in c.args.iter().enumerate() {
+                                if Some(k) == fi.writer_idx {
+                                    if self.s_alias_of(a) != Some(Alias::Plain) {
+                                        return Err(format!("writer argument of {name} is not the bare sink"));
+                                    }
+                                    continue;
+                                }
+                                args.push(self.expr(a)?);
+                            }
+                            let a = if args.is_empty() { String::new() } else { format!(" {}", args.join(" ")) };
+                            let t = self.fresh();
+                            self.emit(format!("let {t} ← Rs.S.runW (Gen.{name} (ω := Rs.Act){a}) self"));
+                            return Ok(t);
+                        }
+                    }
+                }
+            }
         }
         // anything that is a `Result` value
         let ty = self.type_of(inner);
@@ -672,6 +869,19 @@ impl<'a> Tr<'a> {
                         self.mut_vars.remove(&name);
                         self.s.alias.insert(name, Alias::Plain);
                         return Ok(true);
+                    }
+                    // let data_start = file.data_start.get_mut();
+                    if m.method == "get_mut" && m.args.is_empty() {
+                        if let Some(c) = self.s_chain(&m.receiver) {
+                            if c[0] == "self" || self.s.alias.contains_key(&c[0]) {
+                                if let Some(t) = self.type_of(&m.receiver) {
+                                    self.vars.insert(name.clone(), t);
+                                    self.mut_vars.remove(&name);
+                                    self.s.alias.insert(name, Alias::Place(c));
+                                    return Ok(true);
+                                }
+                            }
+                        }
                     }
                     // let file = self.files.last_mut().unwrap();
                     if m.method == "unwrap" && m.args.is_empty() {
@@ -735,7 +945,7 @@ impl<'a> Tr<'a> {
     }
 
     fn s_is_splace(&self, lhs: &Expr) -> bool {
-        match field_chain(lhs) {
+        match self.s_chain(lhs) {
             Some(c) => c[0] == "self" || self.s.alias.contains_key(&c[0]),
             None => false,
         }
@@ -766,6 +976,36 @@ impl<'a> Tr<'a> {
                     _ => return Err("compound assignment".into()),
                 };
                 self.s_assign(&b.left, v)?;
+                Ok(true)
+            }
+            // match on a `GenericZipWriter` value (statement level)
+            Expr::Match(m) if self.type_of(&m.expr).as_deref() == Some("Rs.S.Inner") => {
+                let arms: Vec<&Arm> = m.arms.iter().filter(|a| cfg_on(&a.attrs)).collect();
+                if arms.iter().any(|a| a.guard.is_some()) {
+                    return Err("match guard".into());
+                }
+                let scrut = self.expr(&m.expr)?;
+                self.emit(format!("match {scrut} with"));
+                for a in arms {
+                    let (p, binds) = self.s_vpat(&a.pat)?;
+                    self.emit(format!("| {p} =>"));
+                    let body = (*a.body).clone();
+                    self.s_branch(|s| {
+                        for (n, t) in &binds {
+                            s.vars.insert(n.clone(), t.clone());
+                            s.mut_vars.remove(n);
+                            s.s.alias.remove(n);
+                        }
+                        match &body {
+                            Expr::Block(b) => s.stmts(&b.block.stmts),
+                            other => s.stmt(&Stmt::Expr(other.clone(), None)),
+                        }
+                    })?;
+                }
+                Ok(true)
+            }
+            Expr::Macro(m) if matches!(macro_name(&m.mac).as_str(), "unreachable" | "panic") => {
+                self.emit("Rs.S.panic self".into());
                 Ok(true)
             }
             // if let PAT = E { A } else { B }   (statement level)
@@ -839,6 +1079,58 @@ impl<'a> Tr<'a> {
             }
         }
         self.pat_lean(p)
+    }
+
+    /// patterns over the external `GenericZipWriter` / `MaybeEncrypted` values: the Lean pattern and the
+    /// variables it binds with their types
+    fn s_vpat(&self, p: &Pat) -> R<(String, Vec<(String, String)>)> {
+        let segs = |path: &Path| -> Vec<String> { path.segments.iter().map(|s| s.ident.to_string()).collect() };
+        match p {
+            Pat::Wild(_) => Ok(("_".into(), vec![])),
+            Pat::Path(pp) => {
+                let v = segs(&pp.path);
+                if v.ends_with(&["GenericZipWriter".to_string(), "Closed".to_string()]) {
+                    return Ok(("Model.Inner.closed".into(), vec![]));
+                }
+                Err("pattern over the compressor stack".into())
+            }
+            Pat::TupleStruct(ts) if ts.elems.len() == 1 => {
+                let v = segs(&ts.path);
+                if v.ends_with(&["GenericZipWriter".to_string(), "Storer".to_string()]) {
+                    match &ts.elems[0] {
+                        Pat::Ident(id) if id.subpat.is_none() => {
+                            let n = id.ident.to_string();
+                            return Ok((format!("(Model.Inner.storer {n})"), vec![(n, "(Option Model.EncState)".into())]));
+                        }
+                        Pat::Wild(_) => return Ok(("(Model.Inner.storer _)".into(), vec![])),
+                        Pat::TupleStruct(its) if its.elems.len() == 1 => {
+                            let iv = segs(&its.path);
+                            let var = match &its.elems[0] {
+                                Pat::Ident(id) if id.subpat.is_none() => Some(id.ident.to_string()),
+                                Pat::Wild(_) => None,
+                                _ => return Err("pattern over the compressor stack".into()),
+                            };
+                            if iv.ends_with(&["MaybeEncrypted".to_string(), "Encrypted".to_string()]) {
+                                return Ok(match var {
+                                    Some(n) => (format!("(Model.Inner.storer (some {n}))"), vec![(n, "Model.EncState".into())]),
+                                    None => ("(Model.Inner.storer (some _))".into(), vec![]),
+                                });
+                            }
+                            if iv.ends_with(&["MaybeEncrypted".to_string(), "Unencrypted".to_string()]) {
+                                if var.is_some() {
+                                    return Err("binding the bare sink in a pattern".into());
+                                }
+                                return Ok(("(Model.Inner.storer none)".into(), vec![]));
+                            }
+                            return Err("pattern over the compressor stack".into());
+                        }
+                        _ => return Err("pattern over the compressor stack".into()),
+                    }
+                }
+                Err("pattern over the compressor stack".into())
+            }
+            _ => Err("pattern over the compressor stack".into()),
+        }
     }
 
     /// A block in result position.
